@@ -232,18 +232,31 @@ def process(h, want_functions=False):
             continue
         if res.status in ('unsupported', 'domain'):
             R[res.status] += 1
-            # unsupported-path rule: replay a model concretely, concrete oracle decides
-            vals = model_to_floats(eng, res.model) if res.model is not None else {}
-            out, cenv = run_concrete(h, vals)
-            if cenv.violated_assumption:
-                R['inconclusive'].append('%s path (%s): model violates assumption after rounding'
-                                         % (res.status, res.exc))
-                continue
-            failed, detail = check_ground(h, out)
-            if failed:
-                candidates.append((res, None, vals, True))
-            elif not h.unsupported_is_benign(res):
-                R['inconclusive'].append('%s path: %s (concrete replay passed)' % (res.status, res.exc))
+            # unsupported-path rule: replay models of the path concretely, the concrete oracle decides.  Solvers love
+            # degenerate models (all zeros) that mask real differences: a second, generic model (every variable non-zero,
+            # all pairwise distinct) is replayed as well.
+            models = []
+            if res.model is not None:
+                models.append(model_to_floats(eng, res.model))
+            gm = generic_model(eng, res)
+            if gm is not None:
+                models.append(model_to_floats(eng, gm))
+            hit = False
+            bad_assumption = True
+            for vals in models or [{}]:
+                out, cenv = run_concrete(h, vals)
+                if cenv.violated_assumption:
+                    continue
+                bad_assumption = False
+                failed, detail = check_ground(h, out)
+                if failed:
+                    candidates.append((res, None, vals, True))
+                    hit = True
+                    break
+            if bad_assumption:
+                R['inconclusive'].append('%s path (%s): model violates assumption after rounding' % (res.status, res.exc))
+            elif not hit and not h.unsupported_is_benign(res):
+                R['inconclusive'].append('%s path: %s (concrete replays passed)' % (res.status, res.exc))
             continue
         out = Outcome('ok', value=res.value) if res.status == 'ok' else Outcome('exc', exc=res.exc)
         if res.status == 'exc' and raised_by_harness(res.exc):
@@ -401,6 +414,27 @@ def process(h, want_functions=False):
         R['inconclusive'].append('z3 and cvc5 disagree on %d deciding queries' % eng.stats['cross_disagree'])
     R['wall_s'] = time.time() - t0
     return R
+
+
+def generic_model(eng, res, timeout_ms=4000):
+    """a model of the path in which every real variable is non-zero and all are pairwise distinct (None if there is none
+    within the time limit)"""
+    vs = [v for v in eng._vars.values() if z3.is_real(v)]
+    if not vs:
+        return None
+    s_ = z3.Solver()
+    s_.set('timeout', timeout_ms)
+    for a in eng.assumptions:
+        s_.add(a)
+    for c in res.path:
+        s_.add(c)
+    for v in vs:
+        s_.add(v != 0)
+    if len(vs) > 1:
+        s_.add(z3.Distinct(*vs))
+    if s_.check() == z3.sat:
+        return s_.model()
+    return None
 
 
 def _split(eng, res, obs):
